@@ -3,7 +3,7 @@ import json
 
 from ..gen import htmlgen as hg
 from ..report import h64
-from ..worker import handle_crash
+from ..worker import crash_kind, handle_crash
 from .c14 import BASE_CONFIGS
 
 PROPERTY = "C15"
@@ -16,7 +16,9 @@ RULE = ("idempotence: the C14 inputs (attribute family, random grammar documents
         "they are a fixed point of parse->serialize, must come back unchanged in all four base "
         "configurations. Replacement: <font color=.. + allowed span attributes> and <strike> with "
         "clean children must become the documented <span data-mx-color=..> / <s> with children and "
-        "remaining attributes preserved. evaluations = relations judged; distinct_nontrivial = "
+        "remaining attributes preserved. Helper entry points (sanitize_html, remove_html_reply_fallback) on every "
+        "fifth document and on tag-free texts (containing > NBSP CR ...): equal to parse + sanitize_with + "
+        "to_string under the corresponding configuration, unchanged by a second pass. evaluations = relations judged; distinct_nontrivial = "
         "distinct (document, configuration) pairs whose first pass changed something, plus "
         "distinct clean / replacement documents")
 ASSUMPTIONS = ["'well-nested' clean documents are defined as fixed points of the library's own "
@@ -30,7 +32,7 @@ def layers(tier):
 
 def floors(tier):
     return {"idempotence_pairs": 8000, "first_pass_changed": 4000, "clean_documents": 2500,
-            "replacement_documents": 400, "_distinct_nontrivial": 6000}
+            "replacement_documents": 400, "helper_documents": 1000, "_distinct_nontrivial": 6000}
 
 
 def judge_idem(ctx, doc, config, reply, tag):
@@ -109,6 +111,50 @@ def shard(ctx):
                                    for d, c, _ in chunk])
             for (d, c, tag), r in zip(chunk, replies):
                 judge_idem(ctx, d, c, r, tag)
+        # the helper entry points (sanitize_html, remove_html_reply_fallback) on a sample of the same
+        # documents and on tag-free texts: same answer as parse + sanitize_with + to_string with the
+        # corresponding configuration, and a second pass through the helper changes nothing
+        plain = ["1 > 0", "a\u00a0b", "line\r\nbreak", "\r", "x > y > z", "tab\there", "quote \" ' `", "\u00a0", ">", "a>b\u00a0c\rd",
+                 "é\u2028", "\x00", "\x0c", "]]>", "--> text", ""]
+        hdocs = [d for d, _, _ in work[::5]] + plain + [rng.choice(plain) + rng.choice(plain) for _ in range(40)]
+        hcmds, smeta = [], []
+        for d in hdocs:
+            mode = rng.choice(["strict", "compat"])
+            fb = rng.random() < 0.5
+            hcmds.append({"op": "sanitize_html", "html": d, "mode": mode, "remove_reply_fallback": fb})
+            smeta.append({"mode": mode, "remove_reply_fallback": fb})
+        hrep = w.call_many(hcmds)
+        srep = w.call_many([{"op": "sanitize", "html": c["html"], "config": m, "no_trees": True} for c, m in zip(hcmds, smeta)])
+        frep = w.call_many([{"op": "sanitize", "html": c["html"], "config": {"remove_reply_fallback": True}, "no_trees": True} for c in hcmds])
+        second = []
+        for cmd, m, rh, rs, rf in zip(hcmds, smeta, hrep, srep, frep):
+            if handle_crash(rep, rh, cmd, context="helper") or crash_kind(rs) or crash_kind(rf):
+                second.append(None)
+                continue
+            rep.count("helper_documents")
+            rep.judged(2)
+            key = "helper-%s:%s" % (m["mode"], cmd["html"][:60])
+            if rh["ok"]["out"] != rs["ok"]["out"]:
+                rep.violation("helper_differs_from_sanitize_with", key,
+                              {"input": cmd["html"][:2000], "helper": rh["ok"]["out"][:2000], "sanitize_with": rs["ok"]["out"][:2000], "config": m}, cmd)
+            if rh["ok"]["remove_html_reply_fallback"] != rf["ok"]["out"]:
+                rep.violation("fallback_helper_differs_from_sanitize_with", key,
+                              {"input": cmd["html"][:2000], "helper": rh["ok"]["remove_html_reply_fallback"][:2000],
+                               "sanitize_with": rf["ok"]["out"][:2000]}, cmd)
+            second.append(dict(cmd, html=rh["ok"]["out"]))
+            rep.case(h64("helper", cmd["html"], json.dumps(m, sort_keys=True)))
+        idx = [i for i, c in enumerate(second) if c is not None]
+        reparsed = w.call_many([{"op": "html_parse", "html": second[i]["html"]} for i in idx])
+        for i, r2, rp in zip(idx, w.call_many([second[i] for i in idx]), reparsed):
+            if handle_crash(rep, r2, second[i], context="helper-second-pass") or crash_kind(rp):
+                continue
+            rep.judged()
+            # (as for sanitize_with: the second pass may only do what re-parsing the output does)
+            if r2["ok"]["out"] != rp["ok"]["reser"]:
+                rep.violation("helper_second_pass_changes_output", "helper-%s:%s" % (second[i]["mode"], hcmds[i]["html"][:60]),
+                              {"input": hcmds[i]["html"][:2000], "first": second[i]["html"][:2000], "second": r2["ok"]["out"][:2000],
+                               "first_reparsed": rp["ok"]["reser"][:2000]},
+                              {"ops": [hcmds[i], second[i]]})
         # preservation of clean documents
         for i in range(0, len(clean), B):
             chunk = clean[i:i + B]
